@@ -97,7 +97,8 @@ fn run_case(case: &Case, ev: &Evidence) -> CaseResult {
     // snapshot of a member before the re-init commit (a "member of another epoch")
     let stale_member = others[0];
     let stale_group = w.parties[stale_member].g().clone();
-    let new_gid = b"successor-group".to_vec();
+    // the announced successor id may be the empty string: still an id that the successor has to carry
+    let new_gid = if case.c(4) % 4 == 0 { vec![] } else { b"successor-group".to_vec() };
 
     if !do_branch {
         // ---- ReInit -------------------------------------------------------------------------------
@@ -136,6 +137,13 @@ fn run_case(case: &Case, ev: &Evidence) -> CaseResult {
                 Ok(_) => return Err(fail("old_group_commits_after_reinit", format!("member {m}"))),
                 Err(e) if e.is_panic() => return Err(panic_failure(P, "commit after reinit", &e)),
                 Err(e) => ev.class(&format!("old_group_frozen:{}", e.class())),
+            }
+            // the detached API is no way around it either
+            let mut clone = party.g().clone();
+            match guard(|| clone.commit_builder().commit_time(t).build_detached()) {
+                Ok(_) => return Err(fail("old_group_commits_after_reinit|detached", format!("member {m}: build_detached succeeds on a re-initialised group"))),
+                Err(e) if e.is_panic() => return Err(panic_failure(P, "detached commit after reinit", &e)),
+                Err(e) => ev.class(&format!("old_group_frozen_detached:{}", e.class())),
             }
         }
         // a commit built by a lagging copy is refused too
@@ -278,6 +286,34 @@ fn run_case(case: &Case, ev: &Evidence) -> CaseResult {
                     Ok(()) => return Err(fail("reinit_welcome_accepted_as_branch", format!("party {p}: join_subgroup accepted the Welcome of the re-init successor"))),
                     Err(e) if e.is_panic() => return Err(panic_failure(P, "join_subgroup(re-init welcome)", &e)),
                     Err(e) => ev.class(&format!("reinit_welcome_refused_as_branch:{}", e.class())),
+                }
+            }
+            // a successor that is right in every respect but does not carry the announced group id
+            {
+                let mut okps = vec![];
+                let mut orcs = vec![];
+                for p in &included {
+                    let rc = mk_client(&w, *p).map_err(|e| fail(&format!("get_reinit_client_failed|{}", e.class()), e.text().into()))?;
+                    okps.push(guard(|| rc.generate_key_package(Some(t))).map_err(|e| setup_failure(P, "reinit key package", &e))?);
+                    orcs.push((*p, rc));
+                }
+                let lead3 = mk_client(&w, leader).map_err(|e| fail(&format!("get_reinit_client_failed|{}", e.class()), e.text().into()))?;
+                match guard(|| lead3.verif_commit_unchecked_with_group_id(b"not-the-announced-id".to_vec(), okps, ExtensionList::new(), Some(t))) {
+                    Ok((og, ow)) => {
+                        if let Some(ow) = ow.first() {
+                            let owb = ow.to_bytes().expect("enc");
+                            let otree = og.export_tree().to_bytes().expect("tree");
+                            for (p, rc) in orcs {
+                                match guard(|| rc.join(&MlsMessage::from_bytes(&owb)?, Some(ExportedTree::from_bytes(&otree)?), Some(t)).map(|_| ())) {
+                                    Ok(()) => return Err(fail("joiner_accepts_successor_with_another_group_id", format!("party {p}: announced id {:?} ({} bytes)", String::from_utf8_lossy(&new_gid), new_gid.len()))),
+                                    Err(e) if e.is_panic() => return Err(panic_failure(P, "ReinitClient::join(other group id)", &e)),
+                                    Err(e) => ev.class(&format!("successor_with_another_group_id_refused:{}", e.class())),
+                                }
+                            }
+                        }
+                    }
+                    Err(e) if e.is_panic() => return Err(panic_failure(P, "verif_commit_unchecked_with_group_id", &e)),
+                    Err(e) => ev.class(&format!("unchecked_creator_failed:{}", e.class())),
                 }
             }
             if new_suite == old_suite && sig_compatible {
@@ -492,7 +528,7 @@ pub fn run(ctx: &Ctx) -> ! {
             }
         }
     }
-    let spec = RunSpec { shards: 16, cases_per_shard: ctx.tier.pick(150, 3000), cfg_len: CFG_LEN, min_ops: 0, max_ops: 4, max_shrink_iters: 500 };
+    let spec = RunSpec { shards: 16, cases_per_shard: ctx.tier.pick(150, 6000), cfg_len: CFG_LEN, min_ops: 0, max_ops: 4, max_shrink_iters: 500 };
     match run_sharded(&ev, &spec, 17, &run) {
         Ok(()) => finish_ok(&ev),
         Err(v) => {
